@@ -34,12 +34,15 @@ def reconcile_taxonomy_and_markers(
         for parent in parent_list:
             if parent is None:
                 parent_grp = 'None'
+                children = taxonomy_tree.children(None, None)
             else:
                 parent_grp = f'{parent[0]}/{parent[1]}'
-                if len(taxonomy_tree.children(parent[0], parent[1])) == 1:
-                    # this parent only has one child; it does not matter
-                    # if there are markers for it or not
-                    continue
+                children = taxonomy_tree.children(parent[0], parent[1])
+
+            if len(children) < 2:
+                # no choice is made at this parent (the root included);
+                # it does not matter if there are markers for it or not
+                continue
 
             if parent_grp not in markers:
                 if parent is None:
